@@ -237,6 +237,8 @@ type ConnectToken = u64;
 struct Connecting {
     token: ConnectToken,
     start: Instant,
+    // The id we will receive on once connected.
+    conn_id: SeqNr,
     seq_nr: SeqNr,
     requester: ConnectRequest,
 }
@@ -263,6 +265,10 @@ impl ConnectingPerAddr {
             }
         }
         false
+    }
+
+    fn contains_conn_id(&self, conn_id: SeqNr) -> bool {
+        self.slots.iter().flatten().any(|c| c.conn_id == conn_id)
     }
 
     // TODO: use connection ID instead of sequence number. Or even both.
@@ -465,6 +471,7 @@ impl<T: Transport, E: UtpEnvironment> Dispatcher<T, E> {
                 }
                 let c = Connecting {
                     token,
+                    conn_id,
                     seq_nr: header.seq_nr,
                     requester: sender,
                     start: self.env.now(),
@@ -565,6 +572,15 @@ impl<T: Transport, E: UtpEnvironment> Dispatcher<T, E> {
         let recv_key = (syn.remote, syn.header.connection_id + 1);
         if self.streams.contains_key(&recv_key) {
             debug!(?recv_key, "SYN clashes with an existing stream, ignoring");
+            return MatchSynWithAccept::SynInvalid(accept);
+        }
+        // A pending connect to the same address will receive on its id once the SYN-ACK arrives.
+        if self
+            .connecting
+            .get(&syn.remote)
+            .is_some_and(|c| c.contains_conn_id(recv_key.1))
+        {
+            debug!(?recv_key, "SYN clashes with a pending connect, ignoring");
             return MatchSynWithAccept::SynInvalid(accept);
         }
 
